@@ -8,24 +8,34 @@
      Links g          := forall c, In c (coll g KCell) -> cell_ok (cellf g c)
      LinksAll g       := forall c, cell_ok (cellf g c)           (cells outside problem.cells too)
      LinksExact g     := forall c, In c (coll g KCell) -> cell_exact (cellf g c)
+     owned c h        := every node of the tree h has _cell = cell c
+     Owned g          := forall c h, c_geom (cellf g c) = Some h -> owned c h
+     Inv g            := LinksAll g /\ Owned g
      Linked g         := (forall k o, In o (coll g k) -> plink g k o = true) /\ (forall k, clinked g k = true)
      UnivOK g         := every member cell has c_univ = Some u with u a linked member of problem.universes
      Raw g            := NoDup (coll g KCell) /\ every divider of a member cell is still an integer (parser output)
    Side conditions (Model/Graph.v, executable, printed by the model for every operation of every
-   correspondence case): links_safe, linked_safe, univ_safe; all_safe p g ops := p holds for every
-   operation in the state it is applied to. *)
+   correspondence case):
+     links_safe g o   := o is not the private pointer resolution (Relink), and the duplicate map of a
+                         remove_duplicate_surfaces never removes a survivor (dedup_map_ok)
+     linked_safe g o  := o is not Relink
+     univ_safe g o    := a cell is only appended / moved into a universe the problem holds, a universe
+                         is only removed when no member cell is in it, o is not Relink
+     no_relink ops    := links_safe for every operation, decided from the program alone
+     all_safe p g ops := p holds for every operation in the state it is applied to *)
 From Coq Require Import List ZArith Bool.
 From MPV Require Import Model.Graph Proofs.GraphProofs.
 Import ListNotations.
 Open Scope nat_scope.
 
-(* 1. reading: __update_internal_pointers establishes "exactly those", links every member and puts
-      every cell into a universe of the problem *)
+(* 1. reading: __update_internal_pointers establishes "exactly those", links every member, puts
+      every cell into a universe of the problem, and points every node of every geometry at its cell *)
 Theorem C16_after_read :
   forall g0 g, Raw g0 -> Linked g0 -> update_pointers g0 = (g, ROk) ->
     LinksExact g /\ Linked g /\ UnivOK g /\ coll g KCell = coll g0 KCell /\
     (forall x, ~ In x (coll g0 KCell) ->
-       c_geom (cellf g x) = c_geom (cellf g0 x) /\ forall isc, lst isc (cellf g x) = lst isc (cellf g0 x)).
+       c_geom (cellf g x) = c_geom (cellf g0 x) /\ forall isc, lst isc (cellf g x) = lst isc (cellf g0 x)) /\
+    (forall c, In c (coll g KCell) -> forall h, c_geom (cellf g c) = Some h -> owned c h).
 Proof. exact update_pointers_spec. Qed.
 Print Assumptions C16_after_read.
 
@@ -33,59 +43,31 @@ Theorem C16_exact_implies_links : forall r, cell_exact r -> cell_ok r.
 Proof. exact cell_exact_ok. Qed.
 Print Assumptions C16_exact_implies_links.
 
-(* 2. every operation outside the defect classes preserves Links (arbitrary operation lists) *)
-Theorem C16_step_preserved_partial :
-  forall g o, LinksAll g -> links_safe g o = true -> LinksAll (fst (step g o)).
-Proof. exact step_links. Qed.
-Print Assumptions C16_step_preserved_partial.
+(* 2. every operation of the API preserves Links: geometry assignment, &= and |= in their three
+      call shapes (cell.geometry &= e / g = node; g &= e / node.left &= e), divider replacement,
+      material / universe / fill / transform assignment, renumbering, append / extend / += / remove,
+      add_cell_children_to_problem, remove_duplicate_surfaces — accepted or refused, in any order *)
+Theorem C16_step_preserved :
+  forall g o, Inv g -> links_safe g o = true -> Inv (fst (step g o)).
+Proof. exact step_inv. Qed.
+Print Assumptions C16_step_preserved.
 
-Theorem C16_preserved_partial :
-  forall ops g, LinksAll g -> all_safe links_safe g ops = true -> LinksAll (run g ops).
-Proof. exact run_links. Qed.
-Print Assumptions C16_preserved_partial.
+Theorem C16_preserved :
+  forall ops g, Inv g -> no_relink ops = true -> LinksAll (run g ops) /\ Owned (run g ops).
+Proof. intros ops g V N. apply run_inv; [exact V | apply no_relink_all_safe; exact N]. Qed.
+Print Assumptions C16_preserved.
 
-Theorem C16_read_then_edit_partial :
+Theorem C16_read_then_edit :
   forall g0 g ops, Raw g0 -> Linked g0 -> update_pointers g0 = (g, ROk) ->
-    (forall x, ~ In x (coll g0 KCell) -> cell_ok (cellf g0 x)) ->
-    all_safe links_safe g ops = true -> LinksAll (run g ops).
+    (forall x, ~ In x (coll g0 KCell) ->
+       cell_ok (cellf g0 x) /\ forall h, c_geom (cellf g0 x) = Some h -> owned x h) ->
+    no_relink ops = true -> Links (run g ops).
 Proof.
-  intros g0 g ops R L H NM S. apply run_links; [eapply read_then_links_all; eauto | exact S].
+  intros g0 g ops R L H NM N c _. apply (run_inv ops g); [eapply read_then_inv; eauto | apply no_relink_all_safe; exact N].
 Qed.
-Print Assumptions C16_read_then_edit_partial.
+Print Assumptions C16_read_then_edit.
 
-(* 2'. the full statement does not hold for the current code: four witnesses *)
-Theorem C16_preserved_refuted_dedup :
-  exists g ops, Links g /\ LinksAll g /\ ~ Links (run g ops).
-Proof. exists wit, [Dedup []]. exact dedup_breaks_links. Qed.
-Print Assumptions C16_preserved_refuted_dedup.
-
-Theorem C16_material_reverts_refuted :
-  exists g c m m', m <> m' /\
-    c_mat (cellf (run g [SetMat c (Some m')]) c) = Some m' /\
-    c_mat (cellf (run g [SetMat c (Some m'); Dedup []]) c) = Some m.
-Proof.
-  exists wit, 0, 0, 1. split; [discriminate|]. exact dedup_reverts_material.
-Qed.
-Print Assumptions C16_material_reverts_refuted.
-
-Theorem C16_preserved_refuted_inplace :
-  exists g o, LinksAll g /\ snd (step g o) = ROk /\ ~ Links (run g [o]).
-Proof.
-  exists wit, (IopIn 0 [] OAnd (ESurf 2)). split; [apply wit_LinksAll|]. exact inplace_breaks_links.
-Qed.
-Print Assumptions C16_preserved_refuted_inplace.
-
-Theorem C16_preserved_refuted_divider :
-  exists g o1 o2, LinksAll g /\ snd (step g o1) = ROk /\ snd (step (run g [o1]) o2) = ROk /\
-    ~ Links (run g [o1; o2]).
-Proof.
-  exists wit, (SetGeom 0 (EAnd (ESurf 0) (ESurf 1))), (SetDiv 0 [false] false 2).
-  split; [apply wit_LinksAll|]. exact divider_breaks_links.
-Qed.
-Print Assumptions C16_preserved_refuted_divider.
-
-(* 2''. an assignment that the cell refuses (two dividers with one number) changes nothing
-       (the state of the code after the repairs 2b787be and 5df37b2) *)
+(* 2'. an assignment that the cell refuses (two dividers with one number) changes nothing *)
 Theorem C16_refused_geometry_unchanged :
   forall g c e g', set_geom g c e = (g', RErr NumberConflict) -> g' = g.
 Proof. exact set_geom_conflict_atomic. Qed.
@@ -133,7 +115,14 @@ Theorem C16_unlinked_yields_nothing :
 Proof. exact unlinked_yields_nothing. Qed.
 Print Assumptions C16_unlinked_yields_nothing.
 
-(* 4. every cell is in exactly one universe *)
+(* 4. every object held by a collection of the problem is linked to the problem: preserved by every
+      operation of the API (add_cell_children_to_problem and remove_duplicate_surfaces included) *)
+Theorem C16_linked :
+  forall ops g, Linked g -> all_safe linked_safe g ops = true -> Linked (run g ops).
+Proof. exact run_linked. Qed.
+Print Assumptions C16_linked.
+
+(* 5. every cell is in exactly one universe *)
 Theorem C16_one_universe :
   forall g, UnivOK g -> forall c, In c (coll g KCell) ->
     exists u, In u (coll g KUniv) /\ forall u', In c (universe_cells g u') <-> u' = u.
@@ -145,38 +134,32 @@ Theorem C16_universe_partial :
 Proof. exact run_univ. Qed.
 Print Assumptions C16_universe_partial.
 
+(* ... but not for a cell made by Cell() and appended: it has no universe *)
 Theorem C16_universe_refuted :
   exists g x, UnivOK g /\ snd (step g (Append KCell x)) = ROk /\ ~ UnivOK (run g [Append KCell x]).
 Proof. exists wit, 7. split; [apply wit_props|]. exact append_breaks_univ. Qed.
 Print Assumptions C16_universe_refuted.
 
-(* 5. members are linked to the problem *)
-Theorem C16_linked_partial :
-  forall ops g, Linked g -> all_safe linked_safe g ops = true -> Linked (run g ops).
-Proof. exact run_linked. Qed.
-Print Assumptions C16_linked_partial.
-
-Theorem C16_linked_refuted :
-  exists g ops s, Linked g /\ In s (coll (run g ops) KSurf) /\ plink (run g ops) KSurf s = false /\
-    ~ Linked (run g ops).
-Proof.
-  exists wit, [SetGeom 0 (ESurf 5); AddChildren], 5. split; [apply wit_props|]. exact children_breaks_linked.
-Qed.
-Print Assumptions C16_linked_refuted.
-
-(* 6. after add_cell_children_to_problem every used surface / material / transform is a member,
-      and (when it did not raise) its card is among the data inputs that are written *)
+(* 6. add_cell_children_to_problem either refuses (a number used twice) and changes nothing, or every
+      used surface / material / transform is a member, linked to the problem, and the M and TR
+      cards are among the data inputs that are written *)
 Theorem C16_children :
-  forall g g' r, add_children_to_problem g = (g', r) -> r <> RErr NumberConflict ->
-    (incl (used_surfs g') (coll g' KSurf) /\ incl (used_mats g') (coll g' KMat) /\
-     incl (used_trs g') (coll g' KTr)) /\
-    (r = ROk -> (forall m, In m (coll g' KMat) -> In (DMat m) (dins g')) /\
-                (forall t, In t (coll g' KTr) -> In (DTr t) (dins g'))).
+  forall g g' r, add_children_to_problem g = (g', r) ->
+    (r = RErr NumberConflict /\ g' = g) \/
+    (r = ROk /\
+     incl (used_surfs g') (coll g' KSurf) /\ incl (used_mats g') (coll g' KMat) /\
+     incl (used_trs g') (coll g' KTr) /\
+     (forall m, In m (coll g' KMat) -> In (DMat m) (dins g')) /\
+     (forall t, In t (coll g' KTr) -> In (DTr t) (dins g')) /\
+     (forall s, In s (coll g' KSurf) -> plink g' KSurf s = true) /\
+     (forall m, In m (coll g' KMat) -> plink g' KMat m = true) /\
+     (forall t, In t (coll g' KTr) -> plink g' KTr t = true)).
 Proof. exact children_spec. Qed.
 Print Assumptions C16_children.
 
 (* 7. the hypotheses are satisfiable: a concrete problem (2 cells, 3 surfaces, 2 materials, a cell
-      complement), read by update_pointers, and an 8-operation program of safe operations *)
+      complement) read by update_pointers, and a 13-operation program with every kind of operation,
+      all accepted, that changes the lists *)
 Example C16_nonvacuous_read :
   Raw wit_raw /\ Linked wit_raw /\ update_pointers wit_raw = (wit, ROk) /\ coll wit KCell = [0; 1] /\
   c_surfs (cellf wit 0) = [0; 1] /\ c_comps (cellf wit 1) = [0].
@@ -187,11 +170,15 @@ Qed.
 Print Assumptions C16_nonvacuous_read.
 
 Example C16_nonvacuous_edit :
-  LinksAll wit /\ Linked wit /\ UnivOK wit /\ List.length wit_safe_ops = 8 /\
-  all_safe links_safe wit wit_safe_ops = true /\ all_safe linked_safe wit wit_safe_ops = true /\
-  all_safe univ_safe wit wit_safe_ops = true.
+  Inv wit /\ Linked wit /\ UnivOK wit /\ List.length wit_safe_ops = 13 /\
+  (no_relink wit_safe_ops = true /\
+   all_safe links_safe wit wit_safe_ops = true /\ all_safe linked_safe wit wit_safe_ops = true /\
+   all_safe univ_safe wit wit_safe_ops = true) /\
+  (c_surfs (cellf wit 0) = [0; 1] /\
+   c_surfs (cellf (run wit wit_safe_ops) 0) <> c_surfs (cellf wit 0) /\
+   In 5 (coll (run wit wit_safe_ops) KSurf) /\ ~ In 2 (coll (run wit wit_safe_ops) KSurf)).
 Proof.
-  split; [exact wit_LinksAll|]. split; [apply wit_props|]. split; [apply wit_props|].
-  split; [reflexivity|]. exact wit_safe_ops_safe.
+  split; [exact wit_Inv|]. split; [apply wit_props|]. split; [apply wit_props|].
+  split; [reflexivity|]. split; [exact wit_safe_ops_safe | exact wit_safe_ops_effect].
 Qed.
 Print Assumptions C16_nonvacuous_edit.
